@@ -107,7 +107,7 @@ deriving Repr, DecidableEq
 
 def ofRd : RdErr → Err
   | .eof => .eof | .timeout => .timeout | .hzTimeout => .timeout | .unexpectedEOF => .unexpectedEOF
-  | .bad => .bad | .tooLarge => .tooLarge
+  | .bad => .bad | .tooLarge => .tooLarge | .unmodelled => .bad
 
 /-- `resp.ReadHeader`: the retry loop over the received prefix (see C02) -/
 def readHeader (disableNorm : Bool) (e : End) (s : Bytes) : Except Err (RespHead × Bytes) :=
